@@ -5,6 +5,7 @@ import TaskModel.Load.Siblings
 import TaskModel.Load.NormalizeLemmas
 import TaskModel.Load.Sites
 import TaskModel.Gen.Load
+import TaskModel.Vars.Dotenv
 /-!
 # C09 — loading a Taskfile tree is deterministic
 
@@ -187,5 +188,35 @@ theorem edges_in_declaration_order : Load.edgesAddedInGoroutines = false ∧ Loa
 that is consulted by key -/
 theorem benign_sites_lemma {l₁ l₂ : List (Nat × Var)} (hp : l₁.Perm l₂) (hk : (l₁.map (·.1)).Nodup) (m : Vars) :
     VEq (Vars.setAll l₁ m) (Vars.setAll l₂ m) := Vars.setAll_perm hp hk m
+
+/-! ## Values of a global dotenv file
+
+`godotenv.Read` returns a map; the templated values of the entries (`B={{.A}}x`) must not depend on the order in
+which the map hands them out. -/
+
+open TaskModel.Vars in
+/-- **Dotenv values are deterministic**: for every file (distinct keys), every starting environment and any two
+enumerations of its entries, the templated values are the same — the variables templates read (`dotenvChain`) and the
+environment commands get (`dotenvEnv`). -/
+theorem C09_dotenv_order_indep (base : Env) (es es' : List DEntry) (hp : es.Perm es')
+    (hn : (es.map (·.1)).Nodup) : dotenvChain base es = dotenvChain base es' ∧ dotenvEnv base es = dotenvEnv base es' :=
+  ⟨dotenvChain_perm base hp hn, dotenvEnv_perm base hp hn⟩
+
+open TaskModel.Vars in
+/-- non-vacuity: A=1, B={{.A}}x, C={{.B}}y handed out as C, A, B — the values are 1, 1x, 1xy -/
+example : (dotenvChain [] [(2, [.ref 1, .text [121]]), (0, [.text [49]]), (1, [.ref 0, .text [120]])]).lookup 2 = some [49, 120, 121] ∧
+    ([(2, [Part.ref 1, .text [121]]), (0, [.text [49]]), (1, [.ref 0, .text [120]])].map (·.1)).Nodup := by decide
+
+open TaskModel.Vars in
+/-- **the rule before 6952eb7 (history)**: templating in the order the map hands the entries out gives
+different values for two enumerations of the same file (1xy vs xy for the third entry) -/
+theorem C09_dotenv_old_rule_counterexample :
+    (dotenvChainAsRead [] [(0, [.text [49]]), (1, [.ref 0, .text [120]]), (2, [.ref 1, .text [121]])]).lookup 2 ≠
+    (dotenvChainAsRead [] [(1, [.ref 0, .text [120]]), (0, [.text [49]]), (2, [.ref 1, .text [121]])]).lookup 2 := by decide
+
+/-- the two dotenv loops iterate in key order in the source (both sites are order-sensitive) -/
+theorem dotenv_sites_sorted :
+    (NondetSites.sites.filter (fun s => s.1 == "taskfile.Dotenv" || (s.1 == "task.Executor.compiledTask" && s.2.2 == "sortedkeys"))).map (·.2.2)
+      = ["sortedkeys", "sortedkeys"] := by decide
 
 end Props.C09
